@@ -190,7 +190,11 @@ class State(Sized):
 
         # Concatenate the rest of the variables
         for var in state_vars:
-            self.variables[var] = np.concatenate((self.variables[var], values[var]))
+            new_values = values[var]
+            if self.dtypes[var] == bool:
+                # Flags given as 0/1 (for instance a release file column) stay boolean
+                new_values = np.asarray(new_values).astype(bool)
+            self.variables[var] = np.concatenate((self.variables[var], new_values))
 
         logger.debug("Total number of particles = %d", len(self))
 
